@@ -1,4 +1,5 @@
 import StunVerif.Props.C18
+import StunVerif.Props.C18Codec
 #print axioms StunVerif.C18.send_tx
 #print axioms StunVerif.C18.poll_tx
 #print axioms StunVerif.C18.remembered_fixed
@@ -7,3 +8,7 @@ import StunVerif.Props.C18
 #print axioms StunVerif.C18.tx_exact
 #print axioms StunVerif.C18.peer_address_is_destination
 #print axioms StunVerif.C18.non_request_once
+#print axioms StunVerif.C18.send_request_parses
+#print axioms StunVerif.C18.send_request_dup
+#print axioms StunVerif.C18.send_other_once
+#print axioms StunVerif.C18.transmitted_tid
